@@ -48,6 +48,7 @@ def lib():
 
 
 EMPTY_CTX = [False]
+SHARED = [None]  # entry 'wrapper' only: the wrapped collator object is also used by a second wrapper with other settings
 PRIOR = [0]  # > 0: the same pipeline object already collated a batch of that size before the judged call
 
 
@@ -104,8 +105,28 @@ def run_pipeline(entry, seq, adds, mode, return_ctx, B):
             col = KDComposeCollator([Rec(m, a, log) for m, a in zip(seq, adds)], dataset_mode=mode, return_ctx=return_ctx)
         elif entry == "single":
             col = Rec(seq[0], adds[0], log, dataset_mode=mode, return_ctx=return_ctx)
-        else:
+        elif SHARED[0] is None:
             col = KDSingleCollatorWrapper(Rec(seq[0], adds[0], log), dataset_mode=mode, return_ctx=return_ctx)
+        else:
+            # collators are registered once and wrapped per loader (train loader with ctx, test loader without / other mode)
+            other_mode = "class x" if mode != "class x" else "x"
+            if SHARED[0] == "own_settings":
+                rec = Rec(seq[0], adds[0], log, dataset_mode=other_mode, return_ctx=not return_ctx)
+                col = KDSingleCollatorWrapper(rec, dataset_mode=mode, return_ctx=return_ctx)
+            else:
+                rec = Rec(seq[0], adds[0], log)
+                if SHARED[0] == "other_first":
+                    other = KDSingleCollatorWrapper(rec, dataset_mode=other_mode, return_ctx=not return_ctx)
+                    col = KDSingleCollatorWrapper(rec, dataset_mode=mode, return_ctx=return_ctx)
+                else:
+                    col = KDSingleCollatorWrapper(rec, dataset_mode=mode, return_ctx=return_ctx)
+                    other = KDSingleCollatorWrapper(rec, dataset_mode=other_mode, return_ctx=not return_ctx)
+                try:
+                    other([sample(other_mode, 20 + i, not return_ctx) for i in range(2)])
+                except Exception:
+                    pass
+                del log[:]
+                del calls[:]
         if PRIOR[0]:
             try:
                 col([sample(mode, 10 + i, return_ctx) for i in range(PRIOR[0])])
@@ -121,9 +142,10 @@ def run_pipeline(entry, seq, adds, mode, return_ctx, B):
 
 def check_pipeline(entry, seq, adds, mode, return_ctx, B, p):
     import torch
-    case = dict(entry=entry, seq=list(seq), adds=list(adds), mode=mode, return_ctx=return_ctx, B=B, empty_ctx=EMPTY_CTX[0], prior=PRIOR[0])
+    case = dict(entry=entry, seq=list(seq), adds=list(adds), mode=mode, return_ctx=return_ctx, B=B, empty_ctx=EMPTY_CTX[0], prior=PRIOR[0],
+                shared=SHARED[0])
     tag = (f"|entry={entry}|seq={'>'.join(str(m) for m in seq)}|return_ctx={return_ctx}{'|empty_ctx' if EMPTY_CTX[0] else ''}"
-           f"{'|after_earlier_call' if PRIOR[0] else ''}")
+           f"{'|after_earlier_call' if PRIOR[0] else ''}{'|collator_shared:' + SHARED[0] if SHARED[0] else ''}")
     exp = model(seq)
     p.evaluations += 1
     try:
@@ -327,6 +349,13 @@ def task(args):
                     for B in (1, 2, 3):
                         EMPTY_CTX[0] = False
                         check_pipeline(entry, seq, adds, mode, rc, B, p)
+                        if entry == "wrapper" and B == 2:
+                            for sh in ("other_first", "other_second", "own_settings"):
+                                SHARED[0] = sh
+                                try:
+                                    check_pipeline(entry, seq, adds, mode, rc, B, p)
+                                finally:
+                                    SHARED[0] = None
                         PRIOR[0] = B % 3 + 1  # the pipeline object is used for every batch of an epoch: no state may leak
                         try:
                             check_pipeline(entry, seq, adds, mode, rc, B, p)
@@ -385,9 +414,11 @@ def replay(case):
     else:
         EMPTY_CTX[0] = bool(case.get("empty_ctx"))
         PRIOR[0] = int(case.get("prior") or 0)
+        SHARED[0] = case.get("shared")
         try:
             check_pipeline(case["entry"], tuple(case["seq"]), tuple(case["adds"]), case["mode"], case["return_ctx"], case["B"], p)
         finally:
             EMPTY_CTX[0] = False
             PRIOR[0] = 0
+            SHARED[0] = None
     return None if not p.violations else "; ".join(m for _, m in list(p.violations.values())[:3])
